@@ -126,35 +126,6 @@ func confirmAndMinimise(b builds, cfg tierCfg, viol *proto.Record) *proto.Record
 		}
 		cur.Prefix = prefix
 		got, ok = m.holds(cur)
-		if ok {
-			// shrink the prefix: drop halves, quarters, ... then single runs
-			for chunk := (len(cur.Prefix) + 1) / 2; chunk >= 1 && !m.exhausted(); {
-				removed := false
-				var cands []*proto.Record
-				var starts []int
-				for s := 0; s < len(cur.Prefix); s += chunk {
-					c := cloneRec(cur)
-					e := s + chunk
-					if e > len(c.Prefix) {
-						e = len(c.Prefix)
-					}
-					c.Prefix = append(c.Prefix[:s:s], c.Prefix[e:]...)
-					cands = append(cands, c)
-					starts = append(starts, s)
-				}
-				if i, rec := m.firstHolding(cands); i >= 0 {
-					cur = cands[i]
-					got = rec
-					removed = true
-				}
-				if !removed {
-					if chunk == 1 {
-						break
-					}
-					chunk = (chunk + 1) / 2
-				}
-			}
-		}
 	}
 	probabilistic := false
 	if ok {
@@ -188,6 +159,39 @@ func confirmAndMinimise(b builds, cfg tierCfg, viol *proto.Record) *proto.Record
 		viol = cloneRec(viol)
 		viol.ReplayMode = "probabilistic"
 		logf("the same replay file gives varying observations: treating as nondeterministic (replay is probabilistic)")
+	}
+	// shrink the process history: first none at all, then drop halves, quarters, ... single runs
+	if len(cur.Prefix) > 0 {
+		c := cloneRec(cur)
+		c.Prefix = nil
+		if rec, ok := m.holds(c); ok {
+			cur, got = c, rec
+		}
+		m.cands++
+		for chunk := (len(cur.Prefix) + 1) / 2; chunk >= 1 && !m.exhausted() && len(cur.Prefix) > 0; {
+			var cands []*proto.Record
+			for s := 0; s < len(cur.Prefix); s += chunk {
+				c := cloneRec(cur)
+				e := s + chunk
+				if e > len(c.Prefix) {
+					e = len(c.Prefix)
+				}
+				c.Prefix = append(c.Prefix[:s:s], c.Prefix[e:]...)
+				cands = append(cands, c)
+			}
+			if i, rec := m.firstHolding(cands); i >= 0 {
+				cur = cands[i]
+				got = rec
+				if chunk > len(cur.Prefix) {
+					chunk = len(cur.Prefix)
+				}
+				continue
+			}
+			if chunk == 1 {
+				break
+			}
+			chunk = (chunk + 1) / 2
+		}
 	}
 	for round := 0; round < 3 && !m.exhausted(); round++ {
 		t0, o0, e0 := countOps(cur)
